@@ -25,13 +25,16 @@ TNew == /\ Ev.t = "new"
         /\ store' = [k \in AKeys |-> 0]
         /\ pend' = [p \in AProcs |-> NoKey]
         /\ cons' = [k \in AKeys |-> 0]
+        /\ bad' = [k \in AKeys |-> FALSE]
 TInv  == Ev.t = "inv" /\ AInvoke(Ev.g, Ev.k)
 TCons == Ev.t = "cons" /\ AConstruct(Ev.k, Ev.v)
+(* the Get of g that ran the constructor ended with the constructor's panic *)
+TPanic == Ev.t = "panic" /\ APanic(Ev.g, Ev.k)
 TRet  == Ev.t = "ret" /\ pend[Ev.g] = Ev.k /\ AReturn(Ev.g, Ev.v)
 
 TNext == /\ l <= Len(Trace)
          /\ l' = l + 1
-         /\ (TNew \/ TInv \/ TCons \/ TRet)
+         /\ (TNew \/ TInv \/ TCons \/ TPanic \/ TRet)
 TSpec == TInit /\ [][TNext]_tvars
 
 OnceOnlyT == \A k \in AKeys : cons[k] <= 1
